@@ -1028,16 +1028,21 @@ class Interp:
         nd = len(defaults)
         args = list(args)
         if len(args) > len(params) and a.vararg is None:
-            raise PyRaise(ExcV("TypeError", tag="too many positional arguments"))
+            raise PyRaise(ExcV("TypeError", tag="binding: too many positional arguments"))
+        npo = len(a.posonlyargs)
         for i, p in enumerate(params):
             if i < len(args):
+                if i >= npo and p in kwargs:
+                    raise PyRaise(ExcV("TypeError", tag=f"binding: multiple values for argument {p}"))
                 env.set(p, args[i])
-            elif p in kwargs:
+            elif p in kwargs and i < npo and a.kwarg is None:
+                raise PyRaise(ExcV("TypeError", tag=f"binding: positional-only argument {p} passed as keyword"))
+            elif p in kwargs and i >= npo:
                 env.set(p, kwargs.pop(p))
             else:
                 di = i - (len(params) - nd)
                 if di < 0:
-                    raise PyRaise(ExcV("TypeError", tag=f"missing argument {p}"))
+                    raise PyRaise(ExcV("TypeError", tag=f"binding: missing argument {p}"))
                 env.set(p, self.eval(defaults[di], Env(None), modname))
         if a.vararg is not None:
             env.set(a.vararg.arg, tuple(args[len(params):]))
@@ -1047,11 +1052,11 @@ class Interp:
             elif d is not None:
                 env.set(p.arg, self.eval(d, Env(None), modname))
             else:
-                raise PyRaise(ExcV("TypeError", tag=f"missing kw argument {p.arg}"))
+                raise PyRaise(ExcV("TypeError", tag=f"binding: missing kw argument {p.arg}"))
         if a.kwarg is not None:
             env.set(a.kwarg.arg, dict(kwargs))
         elif kwargs:
-            raise PyRaise(ExcV("TypeError", tag=f"unexpected keyword {list(kwargs)}"))
+            raise PyRaise(ExcV("TypeError", tag=f"binding: unexpected keyword {list(kwargs)}"))
         if preset:
             for k, v in preset.items():
                 env.set(k, v)
